@@ -7,8 +7,11 @@ notclaimed = json.load(open(os.path.join(V, "notclaimed.json"))) if os.path.exis
 checks, na = [], []
 for pid in props:
     f = os.path.join(V, "checks.d", pid + ".json")
-    c = json.load(open(f)) if os.path.exists(f) else None
-    if c and c.get("claimed", True):
+    try:
+        c = json.load(open(f)) if os.path.exists(f) else None
+    except Exception:
+        c = None
+    if c and c.get("claimed", False):
         m = c.get("manifest", {})
         checks.append({
             "property_id": pid,
